@@ -127,3 +127,45 @@ _A_STRAT = ["usage/rate are dyadic (k/4) so float64 arithmetic is exact and TLC'
 prop("C01", "strategy", "every (strategy, infos<=N nodes, need, limit) within MC_Strategy constants, enumerated by TLC, plus seeded random inputs up to 12 nodes; non-trivial = a plan was produced", _A_STRAT)
 prop("C02", "strategy", "same inputs; non-trivial = both feasible and infeasible inputs occur (2 x min of the two counts)", _A_STRAT)
 prop("C03", "strategy", "same inputs; non-trivial = a plan was produced (balancing predicate evaluated on it)", _A_STRAT)
+
+
+# =========================================================================== CpuMem allocation: C04-C07
+@family("cpumem_alloc")
+def fam_cpumem_alloc(tier, base):
+    cfgs = ["MC_CpuMem_quick.cfg"] if tier == "quick" else ["MC_CpuMem_t3.cfg", "MC_CpuMem_t4.cfg"]
+    inputs, trace = base + ".in.ndjson", base + ".trace.ndjson"
+    states = gen = n = 0
+    seen = set()
+    with open(inputs, "w") as f:
+        for cfg in cfgs:
+            r = verif.model_check("MC_CpuMem", cfg, timeout=3000)
+            states += r.distinct
+            gen += r.generated
+            for s in r.tagged("INPUT"):
+                if s not in seen:
+                    seen.add(s)
+                    f.write(s + "\n")
+                    n += 1
+    del seen
+    b = verif.build_driver("cpumem")
+    nrand = 3000 if tier == "quick" else 100000
+    out = verif.run_driver(b, "TestCpuMemAlloc", env={"VERIF_INPUTS": inputs, "VERIF_TRACE": trace, "VERIF_RANDOM": nrand, "VERIF_PAR": 12}, timeout=7000)
+    os.remove(inputs)
+    viols, tr = verif.validate_trace("Trace_CpuMemAlloc", "Trace_CpuMemAlloc.cfg", trace, chunk=100000)
+    lines = verif.read_lines(trace)
+    accepted = sum(1 for ln in lines if '"class":"ok","k"' in ln)
+    bound = sum(1 for ln in lines if '"bind":true' in ln)
+    crash = sum(1 for ln in lines if '"ev":"Crash"' in ln)
+    return dict(trace=trace, viols=viols, states=states, transitions=gen, configs=cfgs + ["Trace_CpuMemAlloc.cfg"],
+                traces={"*": len(lines)}, samples={"*": verif.samples_from(lines, 3)},
+                nontrivial={"C04": accepted, "C05": bound, "C06": bound, "C07": len(lines)},
+                notes="%d TLC-enumerated (node,request) inputs + %d seeded random wide inputs (B in {100,10,4,7}, <=8 cores, arbitrary shares, sub-piece requests) run through the real plugin in supervised worker subprocesses; %d cases had an accepted allocation committed; %d crash/timeout events" % (n, nrand, accepted, crash))
+
+
+_A_CM = ["real cpumem plugin on an embedded single-member etcd; each case in a supervised worker (10 s deadline vs ~1 ms normal, 3 GiB heap watchdog)",
+         "requests have limit = request; node states are written with SetNodeResourceInfo (must pass the plugin's Validate)",
+         "memory in abstract units (the plugin only compares and divides int64 values)"]
+prop("C04", "cpumem_alloc", "every TLC-enumerated (node state x request) + random wide states; allocation tried at k in {1, cap-1, cap, cap+1}; largest accepted allocation committed and read back; non-trivial = an allocation was accepted", _A_CM)
+prop("C05", "cpumem_alloc", "same cases; non-trivial = bound request", _A_CM)
+prop("C06", "cpumem_alloc", "same cases incl. sub-piece requests, max-share 1..3 with more fragment cores than max-share, share != base; non-trivial = bound request (CPU planning executed)", _A_CM)
+prop("C07", "cpumem_alloc", "same cases; capacity vs acceptance at cap-1, cap, cap+1; 3-node joint capacity queries for offered set and saturating total", _A_CM)
